@@ -1,69 +1,232 @@
 (* C03 - adding, removing or replacing a child leaves everything else untouched.
 
-   Full statement wanted (DESIGN 7): for every mutator op of Repeated.v / Fields.v, every document d with
-   Layout (items are disjoint ordered spans after the placeholder, separated by separator tokens
-   only, ids duplicate-free), every index / slice / donor list:
-     op d = (d', Ok) -> exists pre post, d = pre ++ window ++ post /\ d' = pre ++ window' ++ post /\
-     window' keeps every sibling's tokens in order /\ the differing tokens are the child's or
-     separator tokens adjacent to it /\ Layout d'            (hence sequences, by induction).
+   Layout ph doc items (RepeatedLayout.v): doc = pre ++ placeholder :: gap_0 ++ body_0 ++ gap_1 ++ body_1 ... ++ post,
+   ids duplicate-free, gaps of separator-kind tokens only, bodies non-empty, items = (first id, last id) of each body.
+   layout_b is its checker (evaluated by the harness on every implementation state it dumps).
 
-   Proved here (the `_partial` theorems): the frame equation for every *branch* of every primitive the
-   mutators are composed of, over arbitrary documents, with the affected span exposed
-   (d = P ++ S ++ Q, which is what Layout yields for the indexed item(s)):  the result is exactly
-   P ++ new ++ Q, where new = [] / the donor's tokens / fresh separator copies next to them.
-   Everything outside (P, Q: every sibling, every other token, same objects, same order) is
-   literally the same list.  Missing for the full statement: (1) deriving the exposed form from
-   `Layout` + Python index arithmetic for all indices, (2) the batch loop of _insert_tokens for more
-   than one value and the composition del+insert of slice assignment / drop_many, (3) preservation of
-   Layout.  Those three are covered on every run by the correspondence (model = code on every
-   generated call) and by the C03 monitors on the implementation. *)
-From AB Require Import Prelude PySeq Repeated Fields RepeatedProofs.
+   Proved in full, directly under Layout (WF = Layout with the decomposition named), for all documents, all
+   indices / slices / donor lists (Python index arithmetic included):
+     _del_tokens (both branches), _insert_tokens (all three separator modes, any number of values),
+     insert, append, extend, xs[i] = v, xs[a:b] = vs (step 1, incl. b < a), del xs[i], del xs[a:b], pop, clear:
+     result = lay pre pht cs' post with   Edit cs cs' removed news   (cells before the window literally unchanged,
+     cells after keep their tokens, new cells are the donors' tokens), WF preserved, separation (C06) preserved;
+   C03_step / C03_history_partial / C03_history_step_partial: the invariant holds after every accepted or refused
+     call of any history and every accepted call is framed;  C03_frame_tokens: what the frame means token by token
+     (one window; tokens that appear / disappear are separator-kind or the children's own).
+   Still partial: extended-slice assignment (step <> 1) and drop_many / del xs[::k] (descending runs) are modelled and
+   run through the correspondence and the monitors but have no Layout theorem, hence the `_partial` suffix of the
+   history theorems (their op language has no such op).  The single-child slots (Fields.v) keep their exposed-span
+   statements (`_partial`): the pivot / first / last chains that expose the span are generated code (C05 / C15). *)
+From AB Require Import Prelude PySeq RepeatedLib Repeated Fields RepeatedProofs RepeatedLayout RepeatedInsert RepeatedCells
+  RepeatedSep RepeatedOps RepeatedSlices RepeatedHistory.
 
-(* _del_tokens, else-branch: exactly the span get_next(prev_last) .. items[stop-1].last disappears *)
-Theorem C03_del_tokens_else_partial : forall ph (items : list item) P p S Q start stop (it_l : item),
-  NoDup (ids (P ++ p :: S ++ Q)) -> S <> [] -> start < stop ->
-  (start =? 0) && (stop <? zlen items) = false ->
-  prev_last ph items start = Ok (tid p) ->
-  list_get_int items (stop - 1) = Ok it_l -> snd it_l = tid (last S dft) ->
-  del_tokens ph (P ++ p :: S ++ Q) items start stop = (P ++ p :: Q, Ok tt).
-Proof. exact del_tokens_else. Qed.
+(* the boolean checker decides the invariant (soundness) *)
+Theorem C03_layout_checker_sound :
+   forall (ph : Z) (d : doc) (items : list item), layout_b ph d items = true -> Layout ph d items.
+Proof. exact layout_b_sound. Qed.
 
-(* _del_tokens, if-branch (start = 0, items remain): items[0].first .. get_prev(items[stop].first) *)
-Theorem C03_del_tokens_first_partial : forall ph (items : list item) P S n Q stop (it_s it_n : item),
-  NoDup (ids (P ++ S ++ n :: Q)) -> S <> [] -> 0 < stop -> stop < zlen items ->
-  list_get_int items 0 = Ok it_s -> fst it_s = tid (hd dft S) ->
-  list_get_int items stop = Ok it_n -> fst it_n = tid n ->
-  del_tokens ph (P ++ S ++ n :: Q) items 0 stop = (P ++ n :: Q, Ok tt).
-Proof. exact del_tokens_first. Qed.
+(* _del_tokens, both branches: cells A ++ M ++ B become del_res A M B (M removed; at the front the first gap survives) *)
+Theorem C03_del_tokens :
+   forall (ph : Z) (pre : list tok) (pht : tok) (A M B : list cell) (post : list tok),
+       WF ph pre pht (A ++ M ++ B) post ->
+       M <> [] ->
+       del_tokens ph (lay pre pht (A ++ M ++ B) post) (map item_of (A ++ M ++ B)) (zlen A) (zlen A + zlen M) =
+       (lay pre pht (del_res A M B) post, Ok tt).
+Proof. exact del_layout. Qed.
 
-(* _insert_tokens, index > 0: separators ++ child right after the preceding item *)
-Theorem C03_insert_after_partial : forall ph seps sepsb (items : list item) P p Q index v length sbl fr,
-  NoDup (ids (P ++ p :: Q)) -> index <> 0 ->
-  prev_last ph items index = Ok (tid p) -> detachable v = true ->
-  guard (mk_seps fr seps ++ d_store v) (P ++ p :: Q) = true ->
-  insert_tokens ph seps sepsb (P ++ p :: Q) items index [v] length sbl fr =
-    (P ++ p :: (mk_seps fr seps ++ d_store v) ++ Q,
-     [mkdonor (d_node v) [] (d_first v) (d_last v)], fr + nseps seps, Ok tt).
-Proof. exact insert_tokens_after. Qed.
+(* _insert_tokens, all three modes, any number of values: cells A ++ B become ins_res A B (new cells between A and B) *)
+Theorem C03_insert_tokens :
+   forall (ph : Z) (seps sepsb : list (kind * str)),
+       seps_ok seps ->
+       seps_ok sepsb ->
+       forall (pre : list tok) (pht : tok) (A B : list cell) (post : list tok) (items : list item)
+         (X : list cell) (vs : list donor) (sbl : option Z) (fr : Z),
+       WF ph pre pht (A ++ B) post ->
+       items = map item_of (A ++ X) ->
+       (A = [] ->
+        forall (b0 : cell) (B' : list cell),
+        B = b0 :: B' -> sbl = Some (tid (last (pre ++ pht :: c_gap b0) dft)) \/ sbl = None /\ X = B) ->
+       donors_ok fr (lay pre pht (A ++ B) post) vs ->
+       (exists fr' : Z,
+          insert_tokens ph seps sepsb (lay pre pht (A ++ B) post) items (zlen A) vs (zlen (A ++ B)) sbl fr =
+          (lay pre pht (ins_res seps sepsb A B fr vs) post, map emptied vs, fr', Ok tt)) /\
+       WF ph pre pht (ins_res seps sepsb A B fr vs) post /\
+       map item_of (ins_res seps sepsb A B fr vs) = map item_of A ++ map node_item vs ++ map item_of B.
+Proof. exact ins_layout. Qed.
 
-(* _insert_tokens, index = 0 of a non-empty list: child ++ separators right before the first item *)
-Theorem C03_insert_front_partial : forall ph seps sepsb (items : list item) P s n Q v length fr (it0 : item),
-  NoDup (ids (P ++ s :: n :: Q)) -> length <> 0 ->
-  list_get_int items 0 = Ok it0 -> fst it0 = tid n -> detachable v = true ->
-  guard (d_store v ++ mk_seps fr seps) (P ++ s :: n :: Q) = true ->
-  insert_tokens ph seps sepsb (P ++ s :: n :: Q) items 0 [v] length None fr =
-    (P ++ s :: (d_store v ++ mk_seps fr seps) ++ n :: Q,
-     [mkdonor (d_node v) [] (d_first v) (d_last v)], fr + nseps seps, Ok tt).
-Proof. exact insert_tokens_front. Qed.
+(* insert(i, v), any i (clamped like list.insert) *)
+Theorem C03_insert :
+   forall (ph : Z) (seps sepsb : list (kind * str)),
+       seps_ok seps ->
+       seps_ok sepsb ->
+       forall (pre : list tok) (pht : tok) (cs : list cell) (post : list tok) (i : Z) (v : donor) (fr : Z),
+       WF ph pre pht cs post ->
+       donors_ok fr (lay pre pht cs post) [v] ->
+       exists cs' : list cell,
+         insert ph seps sepsb {| s_doc := lay pre pht cs post; s_items := map item_of cs |} i v fr =
+         ({| s_doc := lay pre pht cs' post; s_items := map item_of cs' |}, [emptied v], Ok tt) /\
+         WF ph pre pht cs' post /\
+         Edit cs cs' [] [d_store v] /\
+         map item_of cs' = list_insert (map item_of cs) i (node_item v) /\
+         (Sep seps sepsb cs -> Sep seps sepsb cs').
+Proof. exact insert_layout. Qed.
 
-(* _insert_tokens into an empty list: separators_before ++ child right after the placeholder *)
-Theorem C03_insert_empty_partial : forall seps sepsb (items : list item) P pht Q v sbl fr,
-  NoDup (ids (P ++ pht :: Q)) -> detachable v = true ->
-  guard (mk_seps fr sepsb ++ d_store v) (P ++ pht :: Q) = true ->
-  insert_tokens (tid pht) seps sepsb (P ++ pht :: Q) items 0 [v] 0 sbl fr =
-    (P ++ pht :: (mk_seps fr sepsb ++ d_store v) ++ Q,
-     [mkdonor (d_node v) [] (d_first v) (d_last v)], fr + nsepsb sepsb, Ok tt).
-Proof. exact insert_tokens_empty. Qed.
+(* append(v) *)
+Theorem C03_append :
+   forall (ph : Z) (seps sepsb : list (kind * str)),
+       seps_ok seps ->
+       seps_ok sepsb ->
+       forall (pre : list tok) (pht : tok) (cs : list cell) (post : list tok) (v : donor) (fr : Z),
+       WF ph pre pht cs post ->
+       donors_ok fr (lay pre pht cs post) [v] ->
+       exists cs' : list cell,
+         append ph seps sepsb {| s_doc := lay pre pht cs post; s_items := map item_of cs |} v fr =
+         ({| s_doc := lay pre pht cs' post; s_items := map item_of cs' |}, [emptied v], Ok tt) /\
+         WF ph pre pht cs' post /\
+         Edit cs cs' [] [d_store v] /\
+         map item_of cs' = map item_of cs ++ [node_item v] /\ (Sep seps sepsb cs -> Sep seps sepsb cs').
+Proof. exact append_layout. Qed.
+
+(* extend(vs) *)
+Theorem C03_extend :
+   forall (ph : Z) (seps sepsb : list (kind * str)),
+       seps_ok seps ->
+       seps_ok sepsb ->
+       forall (pre : list tok) (pht : tok) (cs : list cell) (post : list tok) (vs : list donor) (fr : Z),
+       WF ph pre pht cs post ->
+       donors_ok fr (lay pre pht cs post) vs ->
+       NoDup (map d_node vs) ->
+       exists cs' : list cell,
+         extend ph seps sepsb {| s_doc := lay pre pht cs post; s_items := map item_of cs |} vs fr =
+         ({| s_doc := lay pre pht cs' post; s_items := map item_of cs' |}, map emptied vs, Ok tt) /\
+         WF ph pre pht cs' post /\
+         Edit cs cs' [] (map d_store vs) /\
+         map item_of cs' = map item_of cs ++ map node_item vs /\ (Sep seps sepsb cs -> Sep seps sepsb cs').
+Proof. exact extend_layout. Qed.
+
+(* xs[i] = v: exactly the body of item i is replaced *)
+Theorem C03_setitem_int :
+   forall (ph : Z) (pre : list tok) (pht : tok) (cs : list cell) (post : list tok) 
+         (i : Z) (v : donor) (fr : Z) (s' : st) (dl : list donor),
+       WF ph pre pht cs post ->
+       donors_ok fr (lay pre pht cs post) [v] ->
+       setitem_int {| s_doc := lay pre pht cs post; s_items := map item_of cs |} i v = (s', dl, Ok tt) ->
+       exists (A : list cell) (c : cell) (B : list cell),
+         cs = A ++ c :: B /\
+         (zlen A = i \/ zlen A = i + zlen cs) /\
+         dl = [emptied v] /\
+         (let cs' := A ++ {| c_gap := c_gap c; c_body := d_store v |} :: B in
+          s' = {| s_doc := lay pre pht cs' post; s_items := map item_of cs' |} /\
+          WF ph pre pht cs' post /\ Edit cs cs' [c] [d_store v]).
+Proof. exact setitem_int_layout. Qed.
+
+(* xs[a:b] = vs (step 1): _del_tokens then _insert_tokens on the old item list *)
+Theorem C03_setitem_slice :
+   forall (ph : Z) (seps sepsb : list (kind * str)),
+       seps_ok seps ->
+       seps_ok sepsb ->
+       forall (pre : list tok) (pht : tok) (cs : list cell) (post : list tok) (sl : slc) 
+         (vs : list donor) (fr : Z),
+       WF ph pre pht cs post ->
+       donors_ok fr (lay pre pht cs post) vs ->
+       NoDup (map d_node vs) ->
+       sl_step sl = None \/ sl_step sl = Some 1 ->
+       exists A M B cs' : list cell,
+         cs = A ++ M ++ B /\
+         setitem_slice ph seps sepsb {| s_doc := lay pre pht cs post; s_items := map item_of cs |} sl vs fr =
+         ({| s_doc := lay pre pht cs' post; s_items := map item_of cs' |}, map emptied vs, Ok tt) /\
+         WF ph pre pht cs' post /\
+         Edit cs cs' M (map d_store vs) /\
+         map item_of cs' = map item_of A ++ map node_item vs ++ map item_of B /\
+         (Sep seps sepsb cs -> Sep seps sepsb cs').
+Proof. exact setslice_layout. Qed.
+
+(* del xs[i] / del xs[a:b] (step 1) *)
+Theorem C03_delitem :
+   forall (ph : Z) (seps sepsb : list (kind * str)),
+       seps_ok seps ->
+       seps_ok sepsb ->
+       forall (pre : list tok) (pht : tok) (cs : list cell) (post : list tok) (index : pyidx) 
+         (fr : Z) (r : rng),
+       WF ph pre pht cs post ->
+       (forall x : Z, In x (ids (lay pre pht cs post)) -> x < fr) ->
+       range_from_index index (zlen cs) = Ok r ->
+       r_step r = 1 ->
+       exists A M B cs' : list cell,
+         cs = A ++ M ++ B /\
+         delitem ph seps sepsb {| s_doc := lay pre pht cs post; s_items := map item_of cs |} index fr =
+         ({| s_doc := lay pre pht cs' post; s_items := map item_of cs' |}, [], Ok tt) /\
+         WF ph pre pht cs' post /\
+         Edit cs cs' M [] /\
+         map item_of cs' = map item_of A ++ map item_of B /\ (Sep seps sepsb cs -> Sep seps sepsb cs').
+Proof. exact delitem_layout. Qed.
+
+(* pop(i): returns exactly the tokens of item i *)
+Theorem C03_pop :
+   forall (ph : Z) (pre : list tok) (pht : tok) (cs : list cell) (post : list tok) 
+         (i : Z) (s' : st) (dl : list donor) (r : list tok),
+       WF ph pre pht cs post ->
+       pop ph {| s_doc := lay pre pht cs post; s_items := map item_of cs |} i = (s', dl, Ok r) ->
+       exists (A : list cell) (c : cell) (B : list cell),
+         cs = A ++ c :: B /\
+         r = c_body c /\
+         dl = [] /\
+         (zlen A = i \/ zlen A = i + zlen cs) /\
+         s' = {| s_doc := lay pre pht (del_res A [c] B) post; s_items := map item_of (del_res A [c] B) |} /\
+         WF ph pre pht (del_res A [c] B) post /\ Edit cs (del_res A [c] B) [c] [].
+Proof. exact pop_layout. Qed.
+
+(* clear() *)
+Theorem C03_clear :
+   forall (ph : Z) (pre : list tok) (pht : tok) (cs : list cell) (post : list tok),
+       WF ph pre pht cs post ->
+       clear ph {| s_doc := lay pre pht cs post; s_items := map item_of cs |} =
+       ({| s_doc := lay pre pht [] post; s_items := [] |}, [], Ok tt) /\
+       WF ph pre pht [] post /\ Edit cs [] cs [].
+Proof. exact clear_layout. Qed.
+
+(* one accepted call: invariant kept, framed *)
+Theorem C03_step :
+   forall (ph : Z) (seps sepsb : list (kind * str)),
+       seps_ok seps ->
+       seps_ok sepsb ->
+       forall (s : st) (o : rop) (s' : st),
+       LayS ph s ->
+       op_ok s o -> run_op ph seps sepsb s o = (s', Ok tt) -> LayS ph s' /\ FrameS ph seps sepsb s s'.
+Proof. exact step_ok. Qed.
+
+(* after any history of accepted and refused calls the invariant holds *)
+Theorem C03_history_partial :
+   forall (ph : Z) (seps sepsb : list (kind * str)),
+       seps_ok seps ->
+       seps_ok sepsb ->
+       forall (s : st) (ops : list rop) (s' : st), Hist ph seps sepsb s ops s' -> LayS ph s -> LayS ph s'.
+Proof. exact history_layout. Qed.
+
+(* at every point of any history: the next accepted call is framed, the next refused call changes nothing *)
+Theorem C03_history_step_partial :
+   forall (ph : Z) (seps sepsb : list (kind * str)),
+       seps_ok seps ->
+       seps_ok sepsb ->
+       forall (s0 : st) (ops : list rop) (s : st) (o : rop) (s' : st),
+       LayS ph s0 ->
+       Hist ph seps sepsb s0 ops s ->
+       (op_ok s o -> run_op ph seps sepsb s o = (s', Ok tt) -> LayS ph s' /\ FrameS ph seps sepsb s s') /\
+       (forall e : exn, op_fresh s o -> run_op ph seps sepsb s o = (s', Err e) -> s' = s).
+Proof. exact history_step. Qed.
+
+(* token-level reading of the frame *)
+Theorem C03_frame_tokens :
+   forall (ph : Z) (seps sepsb : list (kind * str)) (s s' : st),
+       FrameS ph seps sepsb s s' ->
+       exists (X W W' Y : list tok) (news : list (list tok)) (removed : list cell),
+         s_doc s = X ++ W ++ Y /\
+         s_doc s' = X ++ W' ++ Y /\
+         (forall t : tok,
+          In t W' -> In t W \/ is_sep (tkind t) = true \/ (exists b : list tok, In b news /\ In t b)) /\
+         (forall t : tok,
+          In t W -> In t W' \/ is_sep (tkind t) = true \/ (exists c : cell, In c removed /\ In t (c_body c))).
+Proof. exact frame_tokens. Qed.
 
 (* replace (required / optional / xs[i] = v): exactly the old child's span becomes the new child *)
 Theorem C03_replace_partial : forall P S Q (cur : item) v,
